@@ -213,3 +213,43 @@ Proof.
   { apply A; try lia. intros; apply sumZ_RS_nonneg; intros; apply pow2_ge_0. }
   lra.
 Qed.
+
+(* ------------------------------------------------------------------------------------------ *)
+(** * normalize_power including the non-finite calls *)
+Local Open Scope R_scope.
+Definition R_is0 (x : R) : bool := if Req_EM_T x 0 then true else false.
+
+Lemma power_RS_nonneg (a : arr RS) : 0 <= @power RS a.
+Proof. unfold power, asum, amap. cbn [nr nc get]. apply sumZ_RS_nonneg; intros x _. apply sumZ_RS_nonneg; intros y _.
+  unfold norm2. cbn [kmul kconj RS]. nra. Qed.
+
+Lemma Qle_bool_0_Q2R (p : Qc) : Qle_bool 0 (this p) = true <-> 0 <= Q2R p.
+Proof. rewrite Qle_bool_iff. split; intros H.
+  - apply Qle_Rle in H. now rewrite RMicromega.Q2R_0 in H.
+  - apply Rle_Qle. now rewrite RMicromega.Q2R_0. Qed.
+
+(* the result is finite exactly when the array has non-zero power and the target is not negative; it then has power p *)
+Theorem normalize_power_checked_RS (a : arr RS) (p : Qc) :
+  (forall b, @normalize_power_checked RS sqrt Rinv R_is0 a p = Some b ->
+             @power RS a <> 0 /\ 0 <= Q2R p /\ b = @normalize_power RS sqrt Rinv a (Q2R p) /\ @power RS b = Q2R p)
+  /\ (@normalize_power_checked RS sqrt Rinv R_is0 a p = None <-> @power RS a = 0 \/ Q2R p < 0).
+Proof.
+  unfold normalize_power_checked, R_is0.
+  destruct (Req_EM_T (@power RS a) 0) as [E0|N0]; cbn [orb].
+  - split; [discriminate|]. split; auto.
+  - destruct (Qle_bool 0 (this p)) eqn:Ep; cbn [negb].
+    + apply Qle_bool_0_Q2R in Ep. split.
+      * intros b H. injection H as <-. cbn [kofq RS]. repeat split; auto.
+        apply normalize_power_RS; [|assumption]. pose proof (power_RS_nonneg a). lra.
+      * split; [discriminate|]. intros [H|H]; [contradiction|lra].
+    + split; [discriminate|]. split; auto. intros _. right.
+      apply Rnot_le_lt. intro H. apply Qle_bool_0_Q2R in H. congruence.
+Qed.
+Local Open Scope Z_scope.
+
+(* small instances for the non-vacuity examples *)
+Lemma power_RS_zero n m : @power RS (mkArr (S:=RS) n m (fun _ _ => 0%R)) = 0%R.
+Proof. unfold power, asum, amap. cbn [nr nc get]. apply (sumZ_zero_ext RS RS_ring); intros x _.
+  apply (sumZ_zero_ext RS RS_ring); intros y _. unfold norm2. cbn. apply Rmult_0_l. Qed.
+Lemma power_RS_one (v : R) : @power RS (mkArr (S:=RS) 1 1 (fun _ _ => v)) = (v * v)%R.
+Proof. unfold power, asum, amap. cbn [nr nc get]. rewrite !sumZ_RS_one. reflexivity. Qed.
